@@ -85,6 +85,22 @@ class C03(Prop):
                 reads.append([rng.choice([-1, 1, 2]), s0, e0, rng.choice([0, 60, -300])])
             for be in storelib.BACKENDS:
                 out.append(("epoch-window", {"backend": be, "events": evs, "reads": reads, "replace": []}))
+        # buckets that begin before the epoch (negative instants): events that end before it, reach across it, touch it;
+        # windows open on either side, wholly before it, across it
+        for _ in range(ctx.pick(60, 900)):
+            evs = [[None, rng.choice([-5000, -3000, -2000, -1000, -1, 0, 1000]) * MS // (1 if rng.random() < 0.8 else 1),
+                    rng.choice([0, MS, 500 * MS, 1000 * MS, 2000 * MS, 7000 * MS]), rng.choice([LA, LB])]
+                   for _ in range(rng.randint(1, 5))]
+            evs = [[e[0], (e[1] // MS) * MS, e[2], e[3]] for e in evs]
+            reads = []
+            for _ in range(6):
+                s0 = rng.choice([None, None, -9000 * MS, -4000 * MS, -2500 * MS, -MS, -1, 0, MS])
+                e0 = rng.choice([None, None, -4500 * MS, -1500 * MS, -1, 0, 999, 3000 * MS])
+                if s0 is not None and e0 is not None and e0 < s0:
+                    s0, e0 = e0, s0
+                reads.append([rng.choice([-1, -1, 1, 2]), s0, e0, rng.choice([0, 60, -300, 840])])
+            for be in storelib.BACKENDS:
+                out.append(("pre-epoch-window", {"backend": be, "events": evs, "reads": reads, "replace": []}))
         return out
 
     def impl(self, case):
